@@ -258,6 +258,55 @@ func genPanics(w *world) {
 		}
 		b.WriteString("\n")
 	}
+	b.WriteString("]\n\n")
+	// the per-message loops of the consensus end-blocker: statements inside a loop that leave the
+	// function with an error (a failing message would then keep the remaining ones from being processed)
+	b.WriteString("structure BlockLoop where\n  fn : String\n  loops : Nat\n  errorReturnsInLoops : List String\nderiving Repr\n\n")
+	b.WriteString("def blockLoops : List BlockLoop := [\n")
+	loopFns := []string{"x/consensus/keeper.Keeper.CheckAndProcessAttestedMessages", "x/consensus/keeper.Keeper.CheckAndProcessEstimatedMessages"}
+	for i, key := range loopFns {
+		fi := w.byKey[key]
+		if fi == nil {
+			fail("block loop function %s not found", key)
+		}
+		nloops := 0
+		var rets []string
+		var walk func(n ast.Node, depth int)
+		walk = func(n ast.Node, depth int) {
+			ast.Inspect(n, func(m ast.Node) bool {
+				switch s := m.(type) {
+				case *ast.FuncLit:
+					return false // a closure's return does not leave the loop's function
+				case *ast.ForStmt:
+					if m != n {
+						nloops++
+						walk(s.Body, depth+1)
+						return false
+					}
+				case *ast.RangeStmt:
+					if m != n {
+						nloops++
+						walk(s.Body, depth+1)
+						return false
+					}
+				case *ast.ReturnStmt:
+					if depth > 0 && len(s.Results) > 0 {
+						last := s.Results[len(s.Results)-1]
+						if id, ok := last.(*ast.Ident); !ok || id.Name != "nil" {
+							rets = append(rets, fmt.Sprintf("%s (%s)", src(s), posOf(s.Pos())))
+						}
+					}
+				}
+				return true
+			})
+		}
+		walk(fi.decl.Body, 0)
+		fmt.Fprintf(&b, "  { fn := %s, loops := %d, errorReturnsInLoops := %s }", leanStr(key), nloops, leanStrList(rets))
+		if i < len(loopFns)-1 {
+			b.WriteString(",")
+		}
+		b.WriteString("\n")
+	}
 	b.WriteString("]\n\nend Paloma.Gen.Panics\n")
 	emit("Panics.lean", b.String())
 }
